@@ -198,13 +198,37 @@ def _worker_init():
     from harness import wpull_compat  # noqa: F401
 
 
-def execute_all(scens, procs):
-    if procs <= 1 or len(scens) < 8:
-        return [_one(s) for s in scens]
-    import multiprocessing
-    ctx = multiprocessing.get_context('fork')
-    with ctx.Pool(procs, initializer=_worker_init) as pool:
-        return pool.map(_one, scens, chunksize=max(1, min(16, len(scens) // (procs * 4) or 1)))
+class Crawlers(object):
+    """A few forked worker processes that run crawls (each crawl needs its own event loop, signal watchdog and
+    working directory).  Created BEFORE any thread is started; falls back to in-process execution."""
+    def __init__(self, procs):
+        self.pool = None
+        if procs > 1:
+            try:
+                import multiprocessing
+                self.pool = multiprocessing.get_context('fork').Pool(procs, initializer=_worker_init)
+            except Exception:       # noqa
+                self.pool = None
+
+    def run(self, scens):
+        if self.pool is None or len(scens) < 8:
+            return [_one(s) for s in scens]
+        n = len(scens)
+        res = self.pool.map_async(_one, scens, chunksize=max(1, min(16, n // 24 or 1)))
+        try:
+            return res.get(timeout=120 + 2 * n)
+        except Exception as e:      # noqa
+            self.close(True)
+            raise tlc.TLCError('FTP crawl workers failed: %r' % (e,))
+
+    def close(self, kill=False):
+        if self.pool is not None:
+            if kill:
+                self.pool.terminate()
+            else:
+                self.pool.close()
+            self.pool.join()
+            self.pool = None
 
 
 def header_of(scen):
@@ -349,7 +373,8 @@ def validate(chk, items, tag, nchunk=4):
                             {'origin': origin})
         key = json.dumps([header_of(scen), [[e['c'], e['raw']] for e in cmds]], sort_keys=True)
         chk.case(key=key)
-        if len(chk.samples) < 6 and origin == tag and len(cmds) > 6 and len(cmds) < 30:
+        if sum(1 for x in chk.samples if isinstance(x, dict) and x.get('layer') == LAYER) < 2 and origin == tag \
+                and 6 < len(cmds) < 30:
             chk.samples.append({'origin': origin, 'layer': LAYER, 'crawl': summary,
                                 'commands': ['%s %s' % (e['c'], e['raw']) for e in cmds]})
 
@@ -405,25 +430,28 @@ def run(chk):
     rng = random.Random(chk.seed + 202)
     space = 'quick' if quick else 'full'
     t0 = time.time()
-    with ThreadPoolExecutor(max_workers=3) as ex:
-        f_design = ex.submit(tlc.run_tlc, 'FtpScope', design_cfg(space), workers=4 if quick else 6, timeout=1500,
-                             coverage=True, heap='3g')
-        f_bug = ex.submit(tlc.run_tlc, 'FtpScope', design_cfg('quick', bug=True, invs=['CmdsInScope']), workers=2,
-                          timeout=600)
-        f_gen = ex.submit(generate, space)
-        # the catalogue does not need TLC's output: run it while TLC works
-        cat = catalogue()
-        procs = 4 if quick else 6
-        cat_recs = execute_all(cat, procs)
-        t_cat = time.time() - t0
-        gen, gres = f_gen.result()
-        n_gen = 110 if quick else 8000     # thorough: the whole generated space (5760 scenarios)
-        sample = pick(gen, n_gen, rng)
-        gen_recs = execute_all(sample, procs)
-        t_gen = time.time() - t0
-        design = f_design.result()
-        bug = f_bug.result()
-        t_tlc = time.time() - t0
+    crawlers = Crawlers(4 if quick else 6)
+    try:
+        with ThreadPoolExecutor(max_workers=3) as ex:
+            f_design = ex.submit(tlc.run_tlc, 'FtpScope', design_cfg(space), workers=4 if quick else 6, timeout=1500,
+                                 coverage=True, heap='3g')
+            f_bug = ex.submit(tlc.run_tlc, 'FtpScope', design_cfg('quick', bug=True, invs=['CmdsInScope']), workers=2,
+                              timeout=600)
+            f_gen = ex.submit(generate, space)
+            # the catalogue does not need TLC's output: run it while TLC works
+            cat = catalogue()
+            cat_recs = crawlers.run(cat)
+            t_cat = time.time() - t0
+            gen, gres = f_gen.result()
+            n_gen = 110 if quick else 8000     # thorough: the whole generated space (5760 scenarios)
+            sample = pick(gen, n_gen, rng)
+            gen_recs = crawlers.run(sample)
+            t_gen = time.time() - t0
+            design = f_design.result()
+            bug = f_bug.result()
+            t_tlc = time.time() - t0
+    finally:
+        crawlers.close()
     name = 'FtpScope[%s]' % space
     chk.design(name, design, constants={'Space': space, 'BugGlobDirLevel': False, 'RejByChar': rej_by_char(),
                                         'scenarios': len(gen)},
